@@ -375,6 +375,14 @@ def fw_update(draw, pic, max_len=200):
     ftype, fver = draw(st.integers(0, 2)), draw(st.integers(0, 2))
     if draw(st.integers(0, 11)) == 0:
         return {"op": "fw", "nids": nids, "type": ftype, "ver": draw(st.integers(3, 9)), "image": None, "bad_path": draw(st.sampled_from(["missing", "garbage", "empty", "eof_only"]))}
+    if draw(st.integers(0, 14)) == 0:
+        # the edges of the 16-bit words type and version travel in - and ids beyond them, which no node can ask for
+        edge = draw(st.sampled_from([65535, 65535, 65536, 70000, -1]))
+        if draw(st.booleans()):
+            ftype = edge
+        else:
+            fver = edge
+        return {"op": "fw", "nids": nids, "type": ftype, "ver": fver, "image": {"len": draw(st.sampled_from([1, 40, 129])), "seed": 3, "fill": "random"}}
     if pic.fw and draw(st.integers(0, 9)) < 5:
         ftype, fver = draw(st.sampled_from(pic.fw))  # re-issue an update for firmware already stored
     image = None
